@@ -40,9 +40,19 @@ var classBytes = map[string][]string{
 	"opt": {"?.", "??", "**", "++", "--"}, "regex": {"/a/", "/[/]/g"}, "id": {"a", "b", "x1"}, "var": {"var ", "let ", "const "}, "fn": {"function ", "async ", "class "},
 }
 
-func concretise(cls []string, rng *rand.Rand) []byte {
+func concretise(cls []string, rng *rand.Rand) []byte { return concretiseFor(cls, rng, nil) }
+
+// concretiseFor spells the classes; for a template dialect its own delimiters stand for tmplo/tmplc.
+func concretiseFor(cls []string, rng *rand.Rand, tmpl *[2]string) []byte {
 	var b []byte
 	for _, c := range cls {
+		if tmpl != nil && c == "tmplo" {
+			b = append(b, tmpl[0]...)
+			continue
+		} else if tmpl != nil && c == "tmplc" {
+			b = append(b, tmpl[1]...)
+			continue
+		}
 		reps, ok := classBytes[c]
 		if !ok {
 			fmt.Fprintln(os.Stderr, "unknown class", c)
@@ -153,6 +163,25 @@ func Classes(args []string) {
 		}
 		if len(sum.Samples) < 3 && len(c.Cls) >= 3 {
 			sum.Samples = append(sum.Samples, map[string]interface{}{"fam": c.Fam, "cls": c.Cls, "input": string(input)})
+		}
+		hasTmpl := false
+		for _, x := range c.Cls {
+			hasTmpl = hasTmpl || x == "tmplo" || x == "tmplc"
+		}
+		if c.Fam == "html" && hasTmpl {
+			// every dialect sees its own delimiters (and the plain lexer one of them)
+			for _, ln := range langs {
+				var pair *[2]string
+				for _, d := range tmplDialects {
+					if "html.tmpl."+d.name == ln {
+						p := d.pair
+						pair = &p
+					}
+				}
+				st := rng.Int63()
+				runAll(w, &sum, &tid, []string{ln}, concretiseFor(c.Cls, rand.New(rand.NewSource(st)), pair), tr.E{"cls": c.Cls}, seen)
+			}
+			return
 		}
 		runAll(w, &sum, &tid, langs, input, tr.E{"cls": c.Cls}, seen)
 	})
@@ -333,8 +362,8 @@ func Nest(args []string) {
 			os.Exit(2)
 		}
 		// only the protocol matters here: drop per-token details by recording every call but keeping the trace compact
-		runOne(w, L, b, false, gen)
-		compact(w)
+		runOneOpt(w, L, b, false, gen, true)
+		renumber(w)
 	}
 	sum.Executions = 1
 	w.End(true)
@@ -343,36 +372,51 @@ func Nest(args []string) {
 	json.NewEncoder(os.Stdout).Encode(sum)
 }
 
-// compact keeps the Open event, the first 3 and the last 8 Next events of a long trace and replaces the middle by
-// one Bulk event summarising it (count, all returned, all within bounds), so that 10^6-call traces stay small.
-func compact(w *tr.Writer) {
+// fold keeps the Open event, the first 3 and the last 8 Next events of a long trace and merges everything in between
+// into one Bulk event (count, all returned, all within bounds), so that 10^6-call traces stay small. It is called
+// while the trace is being recorded.
+func fold(w *tr.Writer) {
 	buf := w.Buf()
-	if len(buf) <= 40 {
+	if len(buf) <= 48 {
 		return
 	}
 	head, tail := buf[:4], buf[len(buf)-8:]
 	midl := buf[4 : len(buf)-8]
-	ok, oob, maxoff, errs := true, false, 0, 0
+	bulk := tr.E{"t": head[0]["t"], "i": 4, "ev": "Bulk", "out": "ret", "count": 0, "allret": true, "oob": false, "maxoff": 0, "errs": 0}
 	for _, e := range midl {
+		if e["ev"] == "Bulk" {
+			bulk["count"] = bulk["count"].(int) + e["count"].(int)
+			bulk["allret"] = bulk["allret"].(bool) && e["allret"].(bool)
+			bulk["oob"] = bulk["oob"].(bool) || e["oob"].(bool)
+			bulk["errs"] = bulk["errs"].(int) + e["errs"].(int)
+			if o := e["maxoff"].(int); o > bulk["maxoff"].(int) {
+				bulk["maxoff"] = o
+			}
+			continue
+		}
+		bulk["count"] = bulk["count"].(int) + 1
 		if e["out"] != "ret" {
-			ok = false
+			bulk["allret"] = false
 		}
 		if e["oob"] == true {
-			oob = true
+			bulk["oob"] = true
 		}
-		if o, _ := e["off"].(int); o > maxoff {
-			maxoff = o
+		if o, _ := e["off"].(int); o > bulk["maxoff"].(int) {
+			bulk["maxoff"] = o
 		}
 		if e["err"] == true {
-			errs++
+			bulk["errs"] = bulk["errs"].(int) + 1
 		}
 	}
-	bulk := tr.E{"t": head[0]["t"], "i": 4, "ev": "Bulk", "out": "ret", "count": len(midl), "allret": ok, "oob": oob, "maxoff": maxoff, "errs": errs}
-	nb := append(append(append([]tr.E{}, head...), bulk), tail...)
-	for i, e := range nb {
+	nb := append(append(append(make([]tr.E, 0, 64), head...), bulk), tail...)
+	w.SetBuf(nb)
+}
+
+// renumber gives the events of the trace consecutive sequence numbers after folding.
+func renumber(w *tr.Writer) {
+	for i, e := range w.Buf() {
 		e["i"] = i
 	}
-	w.SetBuf(nb)
 }
 
 func init() {
